@@ -219,6 +219,17 @@ static ares_ssize_t v_recvfrom(ares_socket_t fd, void *buffer, size_t length, in
   return (ares_ssize_t)n;
 }
 
+// request token from the question name: harness names are "n<t>...." ; reverse names "<a>.<b>.1.10.in-addr.arpa" -> a + 256*b
+int token_of_name(const std::string &ln) {
+  if (ln.size() > 1 && ln[0] == 'n' && isdigit((unsigned char)ln[1])) return atoi(ln.c_str() + 1);
+  size_t p = ln.find(".1.10.in-addr.arpa");
+  if (p != std::string::npos) {
+    int a = 0, b = 0;
+    if (sscanf(ln.c_str(), "%d.%d.", &a, &b) == 2) return a + 256 * b;
+  }
+  return 0;
+}
+
 static std::string frame_json(const Frame &f) {
   char        b[256];
   std::string r;
@@ -232,6 +243,9 @@ static std::string frame_json(const Frame &f) {
   // cookie identity: small ids for client part and server part so the spec can compare them
   r += "\"ck\":" + jstr(f.cookie.size() >= 8 ? f.cookie.substr(0, 8) : "") + ",";
   r += "\"sk\":" + jstr(f.cookie.size() > 8 ? f.cookie.substr(8) : "") + ",";
+  std::string ln = f.qname;
+  for (auto &c : ln) c = (char)tolower((unsigned char)c);
+  r += "\"t\":" + std::to_string(token_of_name(ln)) + ",\"lname\":" + jstr(ln) + ",";
   r += "\"name\":" + jstr(f.qname) + "}";
   return r;
 }
@@ -249,14 +263,22 @@ static ares_ssize_t v_sendto(ares_socket_t fd, const void *buffer, size_t length
   if (!s) { errno = EBADF; return -1; }
   int e = take_fail("sendto");
   if (e == 0 && !s->wscript.empty() && s->wscript.front() == -2) { s->wscript.pop_front(); e = ECONNRESET; }
+  std::string attempted;  // UDP: what the library tried to send (decoded, not counted as a transmission)
+  if (!s->tcp) {
+    Frame f;
+    f.seq = 0; f.fd = fd; f.srv = s->srv;
+    f.bytes.assign((const char *)buffer, length);
+    f.parsed = decode_frame(f.bytes, f);
+    attempted = frame_json(f);
+  }
   if (e) {
-    ev("{\"e\":\"sk\",\"op\":\"send\",\"fd\":%d,\"tcp\":%d,\"srv\":%d,\"res\":\"err\",\"len\":%zu}", fd, s->tcp, s->srv, length);
+    ev("{\"e\":\"sk\",\"op\":\"send\",\"fd\":%d,\"tcp\":%d,\"srv\":%d,\"res\":\"err\",\"n\":0,\"len\":%zu,\"frames\":[%s]}", fd, s->tcp, s->srv, length, attempted.c_str());
     errno = e;
     return -1;
   }
   if (!s->wscript.empty() && s->wscript.front() == -1) {
     s->wscript.pop_front();
-    ev("{\"e\":\"sk\",\"op\":\"send\",\"fd\":%d,\"tcp\":%d,\"srv\":%d,\"res\":\"wb\",\"len\":%zu}", fd, s->tcp, s->srv, length);
+    ev("{\"e\":\"sk\",\"op\":\"send\",\"fd\":%d,\"tcp\":%d,\"srv\":%d,\"res\":\"wb\",\"n\":0,\"len\":%zu,\"frames\":[%s]}", fd, s->tcp, s->srv, length, attempted.c_str());
     errno = EWOULDBLOCK;
     return -1;
   }
